@@ -129,11 +129,20 @@ Fixpoint render (fuel : nat) (st : store) (f : nat) : list tr :=
   match fuel with O => [] | S fuel =>
   map (fun en => TR (e_spec en) (e_target en) (e_err en) (map (render fuel st) (e_branches en))) (unpack st f) end.
 
+(* nesting depth of a spec: the fuel an evaluation needs *)
+Fixpoint tdepth (s : tspec) : nat :=
+  match s with
+  | Leaf _ _ | SkipLeaf _ => 0
+  | Nest _ l | Chain _ l | Alt _ l | OrS _ l => S (fold_right (fun x acc => Nat.max (tdepth x) acc) 0 l)
+  | Switch _ cs => S (fold_right (fun kv acc => let '(k, v) := kv in Nat.max (Nat.max (tdepth k) (tdepth v)) acc) 0 cs)
+  | Guard _ _ k => S (tdepth k) end.
+
 Definition root_store : store := [dummy].
 Definition root_target : nat := 7.
+(* fuel: one unit per nesting level for the evaluation; the rendering follows frame indices upwards, so the number of frames bounds it *)
 Definition run (s : tspec) : out * list tr :=
-  let '(st, r) := glom_ 100 root_store 0 root_target s in
-  (r, match f_last (get st 0) with Some f => render 20 st f | None => [] end).
+  let '(st, r) := glom_ (S (tdepth s)) root_store 0 root_target s in
+  (r, match f_last (get st 0) with Some f => render (List.length st) st f | None => [] end).
 
 (* ---------- the line skeleton of format_target_spec_trace ---------- *)
 Inductive lkind := KTarget | KSpec | KErr.
